@@ -242,6 +242,11 @@ def is_known(f):
 def search(rng, tier, broken):
     n = 600 if tier == 'quick' else 8000
     tried = 0; known = 0
+    for orc in (fit_a.legit_fit_oracle, fit_a.history_oracle):
+        r = orc(rng, 300 if tier == 'quick' else 3000)
+        tried += r['tried']
+        if r['failing'] is not None:
+            return {'tried': tried, 'failing': r['failing'], 'known_skipped': 0}
     fixed = fixed_far_cases()
     for i in range(n + len(fixed)):
         c = fixed[i] if i < len(fixed) else far_case(rng) if rng.random() < 0.4 else rand_case(rng)
@@ -258,6 +263,10 @@ def search(rng, tier, broken):
 def replay(payload):
     f = payload.get('failing_input')
     print(json.dumps(payload.get('broken'), indent=1, default=str)[:3000])
+    if f and (f.get('legit') or f.get('kind') == 'fit-history'):
+        r = fit_a.check_history(f) if f.get('kind') == 'fit-history' else fit_a.check_legit_fit(f)
+        print('replayed failing input on the implementation:', 'STILL FAILS %s' % r.get('failure') if r else 'passes now')
+        return 1 if r else 0
     if f:
         c = {k: f.get(k) for k in ('cls', 'x', 'y', 'w', 'dof', 'far', 'ux', 'r_xy', 'a0_b0')}
         c['pred'] = tuple(f['pred']) if f.get('pred') else None
